@@ -92,7 +92,7 @@ Proof.
     - rewrite get_actor_upd_actor, Hga. change (get_actor (set_s_ops _ s0) (o_tgt q)) with (get_actor s0 (o_tgt q)).
       rewrite Hxa. destruct (o_tgt q =? b); cbn; eauto.
     - rewrite Hga. change (get_actor (set_s_ops _ s0) (o_tgt q)) with (get_actor s0 (o_tgt q)). eauto. }
-  destruct (first_poll_spec s1 q H1 Hph Hx1) as (q' & evs & [_ _ _ _ _ Ot] & _).
+  destruct (first_poll_spec s1 q H1 Hph Hx1) as (q' & evs & [_ _ _ _ _ Ot _] & _).
   rewrite Ot by exact Hne. exact H1o.
 Qed.
 
@@ -178,14 +178,14 @@ Proof.
     + destruct (get_op s o0) as [q|] eqn:Hq.
       * destruct (is_done (o_ph q)) eqn:Hd.
         -- exists p. split; [unfold poll; rewrite Hq, Hd; exact Hp|apply OC_same; reflexivity].
-        -- destruct (poll_spec s o0 q Hq Hd) as (q' & evs & [_ _ _ _ _ Ot] & _). exists p.
+        -- destruct (poll_spec s o0 q Hq Hd) as (q' & evs & [_ _ _ _ _ Ot _] & _). exists p.
            split; [rewrite Ot by congruence; exact Hp|apply OC_same; reflexivity].
       * exists p. split; [unfold poll; rewrite Hq; exact Hp|apply OC_same; reflexivity].
   - (* cancel *)
     cbn [sys_step]. destruct (get_op s o0) as [q|] eqn:Hq.
     + destruct (is_done (o_ph q)) eqn:Hd; [exists p; split; [unfold cancel; rewrite Hq, Hd; exact Hp|apply OC_same; reflexivity]|].
       destruct (o_caller q) eqn:Hcl; [exists p; split; [unfold cancel; rewrite Hq, Hd, Hcl; exact Hp|apply OC_same; reflexivity]|].
-      pose proof (cancel_spec s o0 q Hq Hd Hcl) as [G _ _ _ _ Ot].
+      pose proof (cancel_spec s o0 q Hq Hd Hcl) as [G _ _ _ _ Ot _].
       destruct (Nat.eqb_spec o0 o) as [->|Hne].
       * rewrite Hp in Hq. injection Hq as <-. exists (done_f RCancelled p). split; [exact G|].
         apply OC_cancel; [reflexivity|exact Hd|reflexivity].
@@ -210,10 +210,38 @@ Inductive BeginShape (s : sys) (o : oid) (k : okind) (a : aid) (caller : option 
     (forall st, s_actors (g st) = s_actors st) -> (forall st, s_trace (g st) = s_trace st) ->
     (forall st, s_ops (g st) = s_ops st) -> (forall st, s_now (g st) = s_now st) ->
     s' = post_inner o (try_send q (set_hop caller o (g (set_s_ops (s_ops s ++ [q]) (emit (EvBegin o k a) s))))) ->
+    caller_ok s caller = true ->
+    o_tracked q = (match dd_check s k caller xa with DDTrack _ _ => true | _ => false end) ->
+    (forall c cyc, dd_check s k caller xa <> DDPanic c cyc) ->
     BeginShape s o k a caller s'
 | BS_panic c xc F FO EVS :
     get_op s o = None -> get_actor s c = Some xc -> DdPanic s c xc F FO EVS -> s' = NF c F FO EVS s ->
     BeginShape s o k a caller s'.
+
+(* the panicking shape, in normal form *)
+Lemma begin_panic_nf s o k a caller xa c cyc :
+  get_actor s a = Some xa -> caller_ok s caller = true -> dd_check s k caller xa = DDPanic c cyc ->
+  exists xc F FO EVS, get_actor s c = Some xc /\ DdPanic s c xc F FO EVS /\
+    panic_actor c (emit (EvDeadlock c cyc) (emit (EvBegin o k a) s)) = NF c F FO EVS s.
+Proof.
+  intros Hxa Hc Hdd.
+  unfold dd_check in Hdd. destruct k; try discriminate. destruct caller as [c'|]; try discriminate.
+  destruct (f_dd (s_feat s)); try discriminate.
+  destruct (get_actor s c') as [xc|] eqn:Hxc; try discriminate.
+  destruct (N.eqb (a_id xc) (a_id xa) || has_path (s_graph s) (a_id xa) (a_id xc)); try discriminate.
+  injection Hdd as <- <-. unfold caller_ok in Hc. rewrite Hxc in Hc. apply andb_prop in Hc. destruct Hc as [Hhook _].
+  rewrite (emit_NF0 c' s (EvBegin o KAsk a)), NF_emit.
+  destruct (a_pc xc) as [| | |ho hk| | |] eqn:Hpc.
+  all: try (unfold in_hook in Hhook; rewrite Hpc in Hhook; discriminate).
+  - rewrite (NF_panic_actor_plain c' _ _ _ s xc Hxc) by (intros o' k'; unfold idf; rewrite Hpc; discriminate).
+    eexists xc, _, _, _. split; [exact Hxc|]. split; [|reflexivity].
+    apply DdP_plain; [exact Hhook|]. intros o' k' E. unfold idf in E. rewrite Hpc in E. discriminate.
+  - rewrite (NF_panic_actor_handle c' _ _ _ s xc ho hk Hxc) by (unfold idf; exact Hpc).
+    eexists xc, _, _, _. split; [exact Hxc|]. split; [|reflexivity]. apply DdP_handle. exact Hpc.
+  - rewrite (NF_panic_actor_plain c' _ _ _ s xc Hxc) by (intros o' k'; unfold idf; rewrite Hpc; discriminate).
+    eexists xc, _, _, _. split; [exact Hxc|]. split; [|reflexivity].
+    apply DdP_plain; [exact Hhook|]. intros o' k' E. unfold idf in E. rewrite Hpc in E. discriminate.
+Qed.
 
 Lemma begin_cases s o k a caller tmo fn : BeginShape s o k a caller (begin o k a caller tmo fn s).
 Proof.
@@ -224,9 +252,13 @@ Proof.
   apply andb_prop in Hc. destruct Hc as [Hc _].
   set (s0 := emit (EvBegin o k a) s).
   destruct (dd_check s k caller xa) as [|c bid|c cyc] eqn:Hdd.
-  - eapply (BS_send _ _ _ _ _ _ (mkOp o k a fn caller _ OPre SlEmpty false) (fun st => st) xa); try reflexivity; assumption.
+  - eapply (BS_send _ _ _ _ _ _ (mkOp o k a fn caller _ OPre SlEmpty false) (fun st => st) xa); try reflexivity; try assumption.
+    + rewrite Hdd. reflexivity.
+    + intros c cyc. rewrite Hdd. discriminate.
   - eapply (BS_send _ _ _ _ _ _ (mkOp o k a fn caller _ OPre SlEmpty true)
-              (fun st => set_s_graph (g_insert bid (a_id xa) (s_graph s0)) st) xa); try reflexivity; assumption.
+              (fun st => set_s_graph (g_insert bid (a_id xa) (s_graph s0)) st) xa); try reflexivity; try assumption.
+    + rewrite Hdd. reflexivity.
+    + intros c2 cyc. rewrite Hdd. discriminate.
   - unfold dd_check in Hdd. destruct k; try discriminate. destruct caller as [c'|]; try discriminate.
     destruct (f_dd (s_feat s)); try discriminate.
     destruct (get_actor s c') as [xc|] eqn:Hxc; try discriminate.
@@ -292,7 +324,9 @@ Lemma step_new_op s l o p' :
     OpStep s1 (sys_step s l) o q p' evs /\ BeginCase s1 q p' evs /\
     (forall o', o' <> o -> get_op s1 o' = get_op s o') /\
     s_trace s1 = EvBegin o k a :: s_trace s /\ s_now s1 = s_now s /\
-    (forall b y, get_actor s1 b = Some y -> exists x, get_actor s b = Some x /\ a_closed y = a_closed x).
+    (forall b y, get_actor s1 b = Some y -> exists x, get_actor s b = Some x /\ a_closed y = a_closed x) /\
+    (* with the detector on, an ask begun by a hook is tracked *)
+    (f_dd (s_feat s) = true -> k = KAsk -> (exists b, caller = Some b) -> o_tracked q = true).
 Proof.
   intros Hn Hp'.
   assert (Hsame : s_ops (sys_step s l) = s_ops s -> False).
@@ -305,13 +339,17 @@ Proof.
   destruct l; try (exfalso; apply (Hactor a); reflexivity).
   - exfalso. apply Hsame. apply spawn_ops.
   - cbn [sys_step] in Hp'.
-    destruct (begin_cases s o0 k a caller tmo fn) as [E|q g xa Hf Hxa Hid Hk Ht Hcl Hph Hsl Ga Gt Go Gn E|c xc F FO EVS _ Hxc HD E].
+    destruct (begin_cases s o0 k a caller tmo fn) as [E|q g xa Hf Hxa Hid Hk Ht Hcl Hph Hsl Ga Gt Go Gn E Hcok Htrk Hnp|c xc F FO EVS _ Hxc HD E].
     + rewrite E in Hp'. congruence.
     + destruct (begin_send_spec s o0 k a caller q g xa _ Hf Hxa Hid Ht Hph Ga Gt Go Gn E) as (s1 & q' & evs & HS & HB & Ho & Htr & Hnow & Hcl1).
       destruct (Nat.eqb_spec o o0) as [->|Hne].
       * pose proof (os_get _ _ _ _ _ _ HS) as G. rewrite Hp' in G. injection G as ->.
         exists k. exists a. exists caller. exists tmo. exists fn. exists q. exists s1. exists evs.
-        cbn [sys_step]. repeat (split; [first [assumption|reflexivity]|]). assumption.
+        cbn [sys_step]. repeat (split; [first [assumption|reflexivity]|]).
+        intros Hdd -> [b ->]. rewrite Htrk. unfold dd_check in *. rewrite Hdd in *.
+        unfold caller_ok in Hcok. destruct (get_actor s b) as [yb|]; [|discriminate].
+        destruct (N.eqb (a_id yb) (a_id xa) || has_path (s_graph s) (a_id xa) (a_id yb)); [|reflexivity].
+        exfalso. eapply Hnp. reflexivity.
       * exfalso. rewrite (os_others _ _ _ _ _ _ HS o Hne), (Ho o Hne), Hn in Hp'. discriminate.
     + rewrite E, NF_get_op, Hn in Hp' by (intros q; eapply fo_preserves_id_dd; exact HD). discriminate.
   - exfalso. cbn [sys_step] in Hp'. destruct (get_op s o0) as [q|] eqn:Hq.
